@@ -227,6 +227,40 @@ def _truth(c):
     return bool(c)
 
 
+def check_clip(eng, name, finals, Vs, Ds, lr, kl, sqrt_calls, abs_calls, info=None):
+    """Oblige finals == nu * Vs where nu is the scale the implementation derived,
+    after checking that it was derived from kl / |sum <V, D> lr^2|.
+
+    sqrt_calls / abs_calls: the engine log entries made by this rank during
+    this step (symbolic mode).  Concrete mode recomputes nu numerically."""
+    pairs_fv = [(f, v) for F, V in zip(finals, Vs) for f, v in O.pairs(F, V)]
+    if kl is None:
+        eng.oblige_all_eq(name, pairs_fv, info)
+        return
+    s = 0
+    for V, D in zip(Vs, Ds):
+        s = s + O.frob(V, D)
+    s = s * lr * lr
+    if eng.concrete is not None:
+        import math
+        nu = 1.0 if s == 0 else min(1.0, math.sqrt(kl / abs(s)))
+        eng.oblige_all_eq(name, [(f, nu * v) for f, v in pairs_fv], info)
+        return
+    if not sqrt_calls:
+        eng.oblige('clip-skipped-only-when-inner-product-is-zero', s == 0, info)
+        nu = 1
+    else:
+        arg, r = sqrt_calls[-1][0], sqrt_calls[-1][1]
+        if abs_calls:
+            inner, outer = abs_calls[-1][0], abs_calls[-1][1]
+            eng.oblige_eq('clip-scale-uses-sum<V,D>*lr^2-of-the-reference', inner, s, info)
+            eng.oblige_eq('clip-scale-is-sqrt(kl/|sum|)', arg, kl / outer, info)
+        else:
+            eng.oblige_eq('clip-scale-uses-sum<V,D>*lr^2-of-the-reference', arg * O.sabs(s), kl, info)
+        nu = r if bool(r < 1) else 1   # forced by the path condition
+    eng.oblige_all_eq(name, [(f, nu * v) for f, v in pairs_fv], info)
+
+
 def sqrt(eng, x):
     if isinstance(x, symex.SymNum):
         return eng.sqrt(x)
@@ -244,7 +278,7 @@ class WorldResult:
         self.sim = None
 
 
-def run_world(world, rank_fn, eng, policy='rr', seed=0, preempt=False, timeout=120):
+def run_world(world, rank_fn, eng, policy="rr", seed=0, preempt=False, timeout=60):
     """Run rank_fn(rank) on `world` ranks.  Shim: simulator threads.  Real
     torch: forked gloo processes (rank_fn must return picklable data)."""
     wr = WorldResult()
@@ -257,7 +291,11 @@ def run_world(world, rank_fn, eng, policy='rr', seed=0, preempt=False, timeout=1
     if H.SHIM:
         import torch.distributed as dist
         sim = dist.Sim(world, policy=policy, seed=seed, preempt=preempt)
-        sim.run(rank_fn)
+        eng.tagger = dist._sim_current_rank
+        try:
+            sim.run(rank_fn)
+        finally:
+            eng.tagger = None
         sim.finish_checks()
         wr.results, wr.errors = dict(sim.results), dict(sim.errors)
         wr.violations, wr.events, wr.sim = list(sim.violations), list(sim.events), sim
